@@ -26,6 +26,8 @@ import IrVerif.Lemmas.SortLinked
 import IrVerif.Lemmas.SortEffect
 import IrVerif.Lemmas.SortState
 import IrVerif.Lemmas.SortIds
+import IrVerif.Lemmas.SortFull
+import IrVerif.Model.Heap
 import Mathlib.Data.List.Forall2
 
 namespace IrVerif.Sort
@@ -844,6 +846,375 @@ theorem C12_ids_equivariant (σ τ : Nat → Nat) (hσ : Function.Injective σ)
     rw [(C12_ids_shared_raises _ hdup' hroot').2.2.2.1, (C12_ids_shared_raises g hnd hroot).2.2.2.1]
     rfl
 
+
+/-! ## Part E — the full world: `node.graph`, names, name authorities, the checking phase (fix D89)
+
+`Model/SortFull.lean`: `sortF` buckets the popped nodes by `node.graph`, checks every node of every bucket
+(`_check_node_can_be_added`) before the first write, and re-links with `Graph.extend` — checks again, names
+nodes and outputs through the name authority, assigns `node.graph`, then writes the container. -/
+
+theorem mem_poppedIds {u : List Ent} {out : List Nat} {i : Nat} (h : i ∈ poppedIds u out) :
+    ∃ e ∈ u, e.id = i := by
+  obtain ⟨e, he, rfl⟩ := List.mem_map.1 h
+  exact ⟨e, mem_popped_sub he, rfl⟩
+
+/-- everything `sortF` does, branch by branch -/
+theorem sortF_spec (w : FWorld) (order : List Nat) (g : Nat) :
+    (sortF w order g).out ≠ .late ∧ Mono w (sortF w order g).world ∧
+    ((sortF w order g).out ≠ .ok → (sortF w order g).trace = [] ∧ (sortF w order g).world = w) ∧
+    (sortF w order g).world.sw = applyWrites w.sw (sortF w order g).trace := by
+  unfold sortF
+  cases hu : unfoldG w.sw w.sw.fuel g with
+  | none => exact ⟨by simp, Mono.refl w, fun _ => ⟨rfl, rfl⟩, rfl⟩
+  | some t =>
+    simp only
+    split
+    · exact ⟨by simp, Mono.refl w, fun _ => ⟨rfl, rfl⟩, rfl⟩
+    split
+    · exact ⟨by simp, Mono.refl w, fun _ => ⟨rfl, rfl⟩, rfl⟩
+    split
+    · exact ⟨by simp, Mono.refl w, fun _ => ⟨rfl, rfl⟩, rfl⟩
+    split
+    · exact ⟨by simp, Mono.refl w, fun _ => ⟨rfl, rfl⟩, rfl⟩
+    · rename_i _ _ _ hchk
+      have hall : ∀ p ∈ order.map (fun k => (k, bucketF w (nodesOf t)
+          (kahn (nodesOf t).length (predsAt (nodesOf t))) k)), ∀ n ∈ p.2,
+          nodeOK w p.1 n = true ∧ (w.nodes n).graph = some p.1 := by
+        intro p hp n hn
+        refine ⟨?_, ?_⟩
+        · simp only [List.any_eq_true, Bool.not_eq_true', not_exists, not_and, Bool.not_eq_false] at hchk
+          have := hchk p hp
+          exact List.all_eq_true.1 this n hn
+        · obtain ⟨k, _, rfl⟩ := List.mem_map.1 hp
+          exact mem_bucketF_graph hn
+      obtain ⟨h1, h2, h3, h4⟩ := writeAll_ok w _ ⟨w, false, []⟩ rfl (Mono.refl w) hall
+      unfold writeAll
+      simp only [h1, Bool.false_eq_true, if_false]
+      refine ⟨by simp, h2, fun h => absurd rfl h, ?_⟩
+      rw [h3, h4]; rfl
+
+/-- **C12_full_no_late** (what fix D89 is for): once the checking phase has passed, no check of any
+    `Graph.extend` / `_set_node_graph_to_self_and_assign_names` and no name setter of the re-linking phase
+    raises — for EVERY world (no consistency, well-formedness or scoping hypothesis): a call never ends with
+    some graphs re-linked or some names assigned and an exception. -/
+theorem C12_full_no_late (w : FWorld) (order : List Nat) (g : Nat) : (sortF w order g).out ≠ .late :=
+  (sortF_spec w order g).1
+
+/-- **C12_full_raise_no_write**: whenever `sortF` does not end normally — `RecursionError`, the failed
+    `assert node.graph is not None`, `ValueError` of the cycle test / a shared Graph object, or a node that
+    cannot be re-added (an unnamed output whose tensor refuses a name; a node of another graph) — no container
+    write was performed and the world is EQUAL: every container box, every `node.graph`, every node, value
+    and tensor name, both counters and both name sets of every name authority. -/
+theorem C12_full_raise_no_write (w : FWorld) (order : List Nat) (g : Nat)
+    (h : (sortF w order g).out ≠ .ok) :
+    (sortF w order g).trace = [] ∧ (sortF w order g).world = w :=
+  (sortF_spec w order g).2.2.1 h
+
+/-- **C12_full_frame**: whatever the outcome, `Graph.sort` never changes `node.graph`, a node's outputs or
+    op type, a tensor's willingness to be renamed, a value's owner, the attribute graphs or the input
+    producers; a node or value that has a name keeps it (`Mono`); the containers have received exactly the
+    writes of the trace. -/
+theorem C12_full_frame (w : FWorld) (order : List Nat) (g : Nat) :
+    Mono w (sortF w order g).world ∧
+    (sortF w order g).world.sw = applyWrites w.sw (sortF w order g).trace ∧
+    (sortF w order g).world.sw.inputs = w.sw.inputs ∧
+    (sortF w order g).world.sw.rw.attrs = w.sw.rw.attrs := by
+  obtain ⟨_, h2, _, h4⟩ := sortF_spec w order g
+  refine ⟨h2, h4, ?_, ?_⟩
+  · rw [h4]; exact (applyWrites_inputs _ _).1
+  · rw [h4]; exact (applyWrites_inputs _ _).2.1
+
+/-- outcomes of the full model that the container-level model has too -/
+def FOut.toS : FOut → Option SOut
+  | .ok => some .ok
+  | .valueError => some .valueError
+  | .recursionError => some .recursionError
+  | _ => none
+
+/-- **C12_full_refines_state**: when `node.graph` names the graph whose container lists the node (C01's
+    ownership consistency, decidable, evaluated per sort), the full model and the container-level model
+    `sortW` agree: either the checking phase refuses (then `sortW` would have sorted, and nothing is written),
+    or same outcome, same write trace, same containers.  Hence `C12_state_sort`, `C12_state_abs_only`,
+    `C12_state_deterministic` speak about the containers of the full model. -/
+theorem C12_full_refines_state (w : FWorld) (order : List Nat) (g : Nat)
+    (hc : ∀ t, unfoldG w.sw w.sw.fuel g = some t → Consistent w (nodesOf t)) :
+    ((sortF w order g).out = .refused ∧ (sortW w.sw order g).out = .ok) ∨
+    ((sortF w order g).out.toS = some (sortW w.sw order g).out ∧
+      (sortF w order g).world.sw = (sortW w.sw order g).world ∧
+      (sortF w order g).trace = (sortW w.sw order g).trace) := by
+  have hspec := sortF_spec w order g
+  revert hspec
+  unfold sortF sortW
+  cases hu : unfoldG w.sw w.sw.fuel g with
+  | none => intro _; exact Or.inr ⟨rfl, rfl, rfl⟩
+  | some t =>
+    have hcons := hc t hu
+    simp only
+    split
+    · intro _; exact Or.inr ⟨rfl, rfl, rfl⟩
+    have hna : (poppedIds (nodesOf t) (kahn (nodesOf t).length (predsAt (nodesOf t)))).any
+        (fun i => (w.nodes i).graph.isNone) = false := by
+      rw [List.any_eq_false]
+      intro i hi
+      obtain ⟨e, he, rfl⟩ := mem_poppedIds hi
+      rw [hcons e he]; simp
+    simp only [hna, Bool.false_eq_true, if_false]
+    split
+    · intro _; exact Or.inr ⟨rfl, rfl, rfl⟩
+    have hws : order.map (fun k => (k, bucketF w (nodesOf t) (kahn (nodesOf t).length (predsAt (nodesOf t))) k))
+        = order.map (fun k => (k, bucket (nodesOf t) (kahn (nodesOf t).length (predsAt (nodesOf t))) k)) := by
+      apply List.map_congr_left
+      intro k _
+      rw [bucketF_eq_bucket hcons]
+    rw [hws]
+    split
+    · intro _; exact Or.inl ⟨rfl, rfl⟩
+    · rename_i hchk
+      intro hspec
+      obtain ⟨hl, _, _, hsw⟩ := hspec
+      have hl' : (writeAll w (order.map (fun k => (k, bucket (nodesOf t)
+          (kahn (nodesOf t).length (predsAt (nodesOf t))) k)))).late = false := by
+        cases hb : (writeAll w (order.map (fun k => (k, bucket (nodesOf t)
+          (kahn (nodesOf t).length (predsAt (nodesOf t))) k)))).late with
+        | false => rfl
+        | true => simp [hb] at hl
+      simp only [hl', Bool.false_eq_true, if_false] at hsw ⊢
+      have hall : ∀ p ∈ order.map (fun k => (k, bucket (nodesOf t)
+          (kahn (nodesOf t).length (predsAt (nodesOf t))) k)), ∀ n ∈ p.2,
+          nodeOK w p.1 n = true ∧ (w.nodes n).graph = some p.1 := by
+        intro p hp n hn
+        refine ⟨?_, ?_⟩
+        · simp only [List.any_eq_true, Bool.not_eq_true', not_exists, not_and, Bool.not_eq_false] at hchk
+          exact List.all_eq_true.1 (hchk p hp) n hn
+        · obtain ⟨k, _, rfl⟩ := List.mem_map.1 hp
+          rw [← bucketF_eq_bucket hcons] at hn
+          exact mem_bucketF_graph hn
+      obtain ⟨_, _, h3, h4⟩ := writeAll_ok w _ ⟨w, false, []⟩ rfl (Mono.refl w) hall
+      refine Or.inr ⟨rfl, ?_, ?_⟩
+      · exact h3
+      · rw [show (writeAll w _).trace = _ from h4]; rfl
+
+/-! ## Part F — `TopologicalSortPass` on the stateful world (containers at pointer level) -/
+
+theorem order_applyWrite {w : SWorld} (hw : LinkedSet.WorldWF w.rw) (p : Nat × List Nat) (k : Nat) :
+    (applyWrite w p).order k =
+      if k = p.1 ∧ p.1 < w.rw.sets.length then relink (w.order k) p.2 else w.order k := by
+  rw [order_eq_abs, abs_applyWrite hw, order_eq_abs]
+  simp only [absWrite, List.getD_eq_getElem?_getD, List.getElem?_set, List.length_map]
+  by_cases h1 : p.1 = k
+  · subst h1
+    by_cases h2 : p.1 < w.rw.sets.length
+    · simp [h2]
+    · simp [h2]
+  · have h1' : ¬ k = p.1 := fun h => h1 h.symm
+    simp [h1, h1']
+
+/-- one `graph_like.extend(original_nodes)` of the restore loop, when every container still holds an
+    arrangement of its recorded nodes -/
+theorem restore_step (f : Nat → List Nat) {w : SWorld} (hw : LinkedSet.WorldWF w.rw)
+    (hp : ∀ k, (w.order k).Perm (f k)) (k0 : Nat) :
+    LinkedSet.WorldWF (applyWrite w (k0, f k0)).rw ∧
+    (∀ k, ((applyWrite w (k0, f k0)).order k).Perm (f k)) ∧
+    (∀ k, w.order k = f k → (applyWrite w (k0, f k0)).order k = f k) ∧
+    (applyWrite w (k0, f k0)).order k0 = f k0 := by
+  have hrel : relink (w.order k0) (f k0) = f k0 :=
+    C12_relink _ _ (linked_toList_nodup (hw.setOf k0)) (hp k0).symm
+  have hk0 : (applyWrite w (k0, f k0)).order k0 = f k0 := by
+    rw [order_applyWrite hw]
+    by_cases h2 : k0 < w.rw.sets.length
+    · simp [h2, hrel]
+    · simp only [h2, and_false, if_false]
+      have he : w.order k0 = [] := by
+        simp only [SWorld.order, LinkedSet.RWorld.setOf, List.getD]
+        rw [List.getElem?_eq_none (by omega)]; exact toList_empty
+      have := hp k0
+      rw [he] at this ⊢
+      exact (List.nil_perm.1 this).symm
+  refine ⟨worldWF_applyWrite hw _, ?_, ?_, hk0⟩
+  · intro k
+    by_cases h : k = k0
+    · subst h; rw [hk0]
+    · rw [order_applyWrite hw]; simp only [h, false_and, if_false]; exact hp k
+  · intro k hk
+    by_cases h : k = k0
+    · subst h; exact hk0
+    · rw [order_applyWrite hw]; simp only [h, false_and, if_false]; exact hk
+
+/-- the whole restore loop -/
+theorem restore_all (f : Nat → List Nat) : ∀ (gls : List Nat) (w : SWorld), LinkedSet.WorldWF w.rw →
+    (∀ k, (w.order k).Perm (f k)) →
+    LinkedSet.WorldWF (applyWrites w (gls.map (fun k => (k, f k)))).rw ∧
+    (∀ k, ((applyWrites w (gls.map (fun k => (k, f k)))).order k).Perm (f k)) ∧
+    (∀ k, (k ∈ gls ∨ w.order k = f k) → (applyWrites w (gls.map (fun k => (k, f k)))).order k = f k) := by
+  intro gls
+  induction gls with
+  | nil => intro w hw hp; exact ⟨hw, hp, fun k hk => hk.elim (fun h => by simp at h) id⟩
+  | cons k0 gls ih =>
+    intro w hw hp
+    obtain ⟨s1, s2, s3, s4⟩ := restore_step f hw hp k0
+    obtain ⟨i1, i2, i3⟩ := ih (applyWrite w (k0, f k0)) s1 s2
+    simp only [List.map_cons, applyWrites, List.foldl_cons] at *
+    refine ⟨i1, i2, ?_⟩
+    intro k hk
+    apply i3
+    rcases hk with hk | hk
+    · rcases List.mem_cons.1 hk with rfl | hk
+      · exact Or.inr s4
+      · exact Or.inl hk
+    · exact Or.inr (s3 k hk)
+
+/-- a sort whose tree is well formed leaves in every container an arrangement of what it held -/
+theorem sortW_perm (w : SWorld) (hw : LinkedSet.WorldWF w.rw) (ord : List Nat) (g : Nat)
+    (hyp : (sortW w ord g).out = .ok → ∃ t, unfoldG w w.fuel g = some t ∧ WF t ∧
+      ord.Perm (sortKeys (nodesOf t))) :
+    LinkedSet.WorldWF (sortW w ord g).world.rw ∧
+    ∀ k, ((sortW w ord g).world.order k).Perm (w.order k) := by
+  by_cases hok : (sortW w ord g).out = .ok
+  · obtain ⟨t, hu, hwf, hord⟩ := hyp hok
+    obtain ⟨h1, _, _, h4⟩ := C12_state_sort w hw ord g t hu hwf hord
+    refine ⟨h1, ?_⟩
+    cases hm : sortModel t with
+    | none => simp only [hm] at h4; rw [h4.1] at hok; cases hok
+    | some res =>
+      simp only [hm] at h4
+      obtain ⟨_, _, _, hnew, hother⟩ := h4
+      intro k
+      by_cases hk : k ∈ gidsOf (allGraphs t)
+      · obtain ⟨h, hh, rfl⟩ := List.mem_map.1 hk
+        have hperm := C12_perm t hwf res hm
+        have hmem : orderOf h ∈ graphsOf t := List.mem_map.2 ⟨h, hh, rfl⟩
+        obtain ⟨new, hnewmem, hn1, hn2⟩ := forall₂_mem_left hperm hmem
+        have := hnew new.1 new.2 (by simpa using hnewmem)
+        rw [hn1] at this
+        simp only [orderOf] at this hn2
+        rw [this, ← unfold_orders hu h hh]
+        exact hn2
+      · have := hother k hk
+        simp only [SWorld.order, this]
+        exact List.Perm.refl _
+  · obtain ⟨_, hwld⟩ := C12_state_raise_no_write w ord g hok
+    rw [hwld]
+    exact ⟨hw, fun k => List.Perm.refl _⟩
+
+/-- hypothesis of `C12_state_pass_atomic`, evaluated along the run: every sort of the pass that succeeds was a
+    sort of a well-formed tree (no Graph object shared by two attributes) with an arrangement of the keys as
+    re-link order.  Decidable; the driver evaluates it on every replayed pass (`pass_hyp`). -/
+def PassHyp : SWorld → List (Nat × List Nat) → Prop
+  | _, [] => True
+  | w, p :: rest => (sortW w p.2 p.1).out = .ok →
+      (∃ t, unfoldG w w.fuel p.1 = some t ∧ WF t ∧ p.2.Perm (sortKeys (nodesOf t))) ∧
+      PassHyp (sortW w p.2 p.1).world rest
+
+/-- the executable hypothesis implies `PassHyp` -/
+theorem passHypB_sound : ∀ (roots : List (Nat × List Nat)) (w : SWorld), passHypB w roots = true →
+    PassHyp w roots := by
+  intro roots
+  induction roots with
+  | nil => intro w _; trivial
+  | cons p rest ih =>
+    intro w h hok
+    simp only [passHypB, hok, if_true, Bool.and_eq_true] at h
+    obtain ⟨h1, h2⟩ := h
+    cases hu : unfoldG w w.fuel p.1 with
+    | none => rw [hu] at h1; simp at h1
+    | some t =>
+      rw [hu] at h1
+      simp only [Bool.and_eq_true, decide_eq_true_eq] at h1
+      exact ⟨⟨t, rfl, ⟨h1.1.1, h1.1.2⟩, List.isPerm_iff.1 h1.2⟩, ih _ h2⟩
+
+theorem passSortsW_perm : ∀ (roots : List (Nat × List Nat)) (w : SWorld), LinkedSet.WorldWF w.rw →
+    PassHyp w roots →
+    LinkedSet.WorldWF (passSortsW w roots).world.rw ∧
+    ∀ k, ((passSortsW w roots).world.order k).Perm (w.order k) := by
+  intro roots
+  induction roots with
+  | nil => intro w hw _; exact ⟨hw, fun k => List.Perm.refl _⟩
+  | cons p rest ih =>
+    intro w hw hyp
+    obtain ⟨g, ord⟩ := p
+    simp only [PassHyp] at hyp
+    obtain ⟨s1, s2⟩ := sortW_perm w hw ord g (fun h => (hyp h).1)
+    simp only [passSortsW]
+    by_cases hok : (sortW w ord g).out = .ok
+    · simp only [hok, if_true]
+      obtain ⟨i1, i2⟩ := ih (sortW w ord g).world s1 (hyp hok).2
+      exact ⟨i1, fun k => (i2 k).trans (s2 k)⟩
+    · simp only [hok, if_false]
+      exact ⟨s1, s2⟩
+
+/-- **C12_state_pass_atomic**: `TopologicalSortPass.call` on the stateful world (node containers at pointer
+    level, arbitrary histories; `roots` = main graph and functions with the re-link order of each sort, `gls`
+    = the recorded `graph_likes`, ANY list of graphs): whatever the outcome, every container still satisfies
+    C11's invariant and holds an arrangement of the nodes it held; when the pass raises `ValueError` — a cycle
+    or a shared Graph object in the main graph or in any function, after any number of successful sorts —
+    every recorded graph (main graph, functions, all their nested graphs) holds EXACTLY the node sequence it
+    held before the call; with any other outcome the restore loop is not executed: the world is the one the
+    sorts left (for `ok`: each sort as `C12_state_sort` describes). -/
+theorem C12_state_pass_atomic (w : SWorld) (hw : LinkedSet.WorldWF w.rw)
+    (roots : List (Nat × List Nat)) (gls : List Nat) (hyp : PassHyp w roots) :
+    LinkedSet.WorldWF (passW w roots gls).world.rw ∧
+    (∀ k, ((passW w roots gls).world.order k).Perm (w.order k)) ∧
+    ((passW w roots gls).out = .valueError →
+      ∀ k ∈ gls, (passW w roots gls).world.order k = w.order k) ∧
+    ((passW w roots gls).out ≠ .valueError → passW w roots gls = passSortsW w roots) := by
+  obtain ⟨p1, p2⟩ := passSortsW_perm roots w hw hyp
+  unfold passW
+  by_cases hv : (passSortsW w roots).out = .valueError
+  · rw [if_pos hv]
+    obtain ⟨r1, r2, r3⟩ := restore_all (fun k => w.order k) gls (passSortsW w roots).world p1 p2
+    exact ⟨r1, r2, fun _ k hk => r3 k (Or.inl hk), fun h => absurd rfl h⟩
+  · rw [if_neg hv]
+    exact ⟨p1, p2, fun h => absurd h hv, fun _ => rfl⟩
+
+
+/-! ## Part G — `heapq` (`Model/Heap.lean`) -/
+
+theorem isHeap_parent {h : List Nat} (hh : Heap.isHeap h = true) {i : Nat} (hi : i < h.length) (h0 : i ≠ 0) :
+    h.getD ((i - 1) / 2) 0 ≤ h.getD i 0 := by
+  unfold Heap.isHeap at hh
+  have := List.all_eq_true.1 hh i (List.mem_range.2 hi)
+  simp only [Bool.or_eq_true, beq_iff_eq, decide_eq_true_eq] at this
+  rcases this with h1 | h1
+  · exact absurd h1 h0
+  · exact h1
+
+/-- in a list satisfying the heap invariant the first entry is below every entry -/
+theorem isHeap_root_le {h : List Nat} (hh : Heap.isHeap h = true) :
+    ∀ i, i < h.length → h.getD 0 0 ≤ h.getD i 0 := by
+  intro i
+  induction i using Nat.strongRecOn with
+  | _ i ih =>
+    intro hi
+    by_cases h0 : i = 0
+    · subst h0; exact Nat.le_refl _
+    · have hp : (i - 1) / 2 < i := by omega
+      exact Nat.le_trans (ih _ hp (by omega)) (isHeap_parent hh hi h0)
+
+/-- **C12_heappop_min_partial**: on a list that satisfies the heap invariant (`heap[(i-1)>>1] <= heap[i]`),
+    `heapq.heappop` (transcription of CPython's heapq.py) returns an entry of the list that is below every entry —
+    with distinct keys: THE minimum, i.e. the queued node with the largest position, which is what `maxOf` in
+    `Model/Sort.lean` extracts.  PARTIAL: that `heapify`, `heappush` and `heappop` (`_siftup` / `_siftdown`)
+    re-establish the invariant and keep the multiset of entries is not proved; it is compared with the real `heapq`
+    step by step on every run and the invariant is evaluated after every operation (`heap_hyp_invariant`). -/
+theorem C12_heappop_min_partial (h : List Nat) (hh : Heap.isHeap h = true) (hne : h ≠ []) :
+    ∃ m, (Heap.heappop h).1 = some m ∧ m ∈ h ∧ ∀ x ∈ h, m ≤ x := by
+  cases h with
+  | nil => exact absurd rfl hne
+  | cons a t =>
+    have hroot : ∀ x ∈ a :: t, a ≤ x := by
+      intro x hx
+      obtain ⟨i, hi, rfl⟩ := List.getElem_of_mem hx
+      have := isHeap_root_le hh i hi
+      simpa [List.getD_eq_getElem?_getD, List.getElem?_eq_getElem hi] using this
+    refine ⟨a, ?_, by simp, hroot⟩
+    cases t with
+    | nil => simp [Heap.heappop]
+    | cons b t' =>
+      simp [Heap.heappop, List.getLast?_cons_cons, List.dropLast]
+      cases hl : (b :: t').getLast? with
+      | none => simp at hl
+      | some last => simp
+
 /-! ## non-vacuity -/
 
 /-- `g0 = [n1, n0]`, `n1` uses `n0` and owns the body `g1 = [n2]`, `n2` captures `n0` -/
@@ -955,5 +1326,58 @@ example : sortIds ex5 = none ∧ (kahnIds (nodesOf ex5)).sorted = [1, 2, 0] := b
 example : sortIds ex4 = some [(0, [0, 1, 3]), (1, [2, 4])] := by decide
 example : sortEffect (renG (fun n => n + 7) (fun k => k + 3) ex4) =
     (false, [(3, [7, 8, 10]), (4, [9, 11])]) := by decide
+
+/-! non-vacuity of Parts E and F -/
+
+/-- a full world over `exW`: every node knows its graph; `n0` and its output `v10` have no name; `v12` (output of
+    `n2`) has no name and is backed by a tensor that refuses one when `lock` -/
+def exF (lock : Bool) : FWorld :=
+  ⟨exW,
+   fun n => match n with
+    | 0 => ⟨some 0, none, "A", [10]⟩
+    | 1 => ⟨some 0, some "n1", "B", [11]⟩
+    | 2 => ⟨some 1, some "n2", "C", [12]⟩
+    | _ => {},
+   fun v => match v with
+    | 10 => ⟨none, none, some 0⟩
+    | 11 => ⟨some "v1", none, some 0⟩
+    | 12 => ⟨none, some (lock, some "t"), some 1⟩
+    | _ => {},
+   fun _ => {}⟩
+
+example : Consistent (exF true) (nodesOf ex1) := by decide
+example : (sortF (exF false) [1, 0] 0).out = .ok ∧
+    (sortF (exF false) [1, 0] 0).trace = [(1, [2]), (0, [0, 1])] := by decide
+example : (sortF (exF true) [1, 0] 0).out = .refused := by decide
+example : (sortW (exF true).sw [1, 0] 0).out = .ok := by decide
+example : ((sortF (exF false) [1, 0] 0).world.nodes 0).name.isSome = true ∧
+    ((sortF (exF false) [1, 0] 0).world.vals 12).name.isSome = true ∧
+    ((sortF (exF false) [1, 0] 0).world.auths 1).vCtr = 1 := by decide
+/-- `n0.graph = None`: the assertion in the loop fails -/
+example : (sortF ((exF false).setNode 0 {}) [1, 0] 0).out = .assertionError := by decide
+example : ¬ Consistent ((exF false).setNode 0 {}) (nodesOf ex1) := by decide
+
+/-- `exW` plus a function body (container 2) whose two nodes use each other -/
+def exP : SWorld :=
+  ⟨⟨exW.rw.sets ++ [(LinkedSet.extend LinkedSet.empty [3, 4]).1], [(1, [.graph 1])], none⟩,
+   [(0, []), (1, [some 0]), (2, [some 0]), (3, [some 4]), (4, [some 3])]⟩
+
+theorem exP_wf : LinkedSet.WorldWF exP.rw := by
+  intro s hs
+  simp only [exP, exW, List.cons_append, List.nil_append, List.mem_cons, List.mem_nil_iff, or_false] at hs
+  rcases hs with rfl | rfl | rfl <;> exact LinkedSet.C11_rep_step LinkedSet.C11_rep_empty.1 (.extend _)
+
+example : passHypB exP [(0, [1, 0]), (2, [2])] = true := by decide
+example : graphLikes exP [0, 2] = some [0, 1, 2] := by decide
+example : (passSortsW exP [(0, [1, 0]), (2, [2])]).out = .valueError ∧
+    (passSortsW exP [(0, [1, 0]), (2, [2])]).world.order 0 = [0, 1] := by decide
+example : (passW exP [(0, [1, 0]), (2, [2])] [0, 1, 2]).out = .valueError ∧
+    (passW exP [(0, [1, 0]), (2, [2])] [0, 1, 2]).world.order 0 = [1, 0] := by decide
+example : (passW exP [(0, [1, 0])] [0, 1]).out = .ok := by decide
+
+example : Heap.isHeap (Heap.heapify [5, 3, 9, 1, 7]) = true ∧ Heap.heapify [5, 3, 9, 1, 7] = [1, 3, 9, 5, 7] := by decide
+example : Heap.heappop [1, 3, 9, 5, 7] = (some 1, [3, 5, 9, 7]) := by decide
+example : Heap.heappush [3, 5, 9, 7] 2 = [2, 3, 9, 7, 5] := by decide
+example : Heap.isHeap [3, 1] = false := by decide
 
 end IrVerif.Sort
